@@ -22,7 +22,7 @@ Subset (everything else → `Untranslatable`):
   statements   x = e | x += e | x -= e | if/elif/else | for v in e | for i, v in enumerate(e) | continue (last
                statement of an `if` body directly inside a loop body) | return e (function level; a branch all of whose
                paths return makes what follows the else branch) | d[k] = e on a configured record list (an output
-               column) | x = [] and x.append(e) on a local list | return / x = [E for v in xs if c] and
+               column) | x = [] and x.append(e) / x.extend(E for v in xs) on a local list | return / x = [E for v in xs if c] and
                [y := E for v in xs] (list comprehension, one generator) | docstrings
                with `raises=True` also: raise F(msg) | try: … except E [as e]: raise F(msg) [from e] (last statement)
   expressions  int / bool / str constants, names, + - * // % (// and % by a positive literal), >> k, & (2^k - 1),
@@ -30,7 +30,8 @@ Subset (everything else → `Untranslatable`):
                `a if c else b`, max, min, len, ord, list displays, f-strings of str / int pieces,
                `{...}.get(k, default)` on a dict display, configured attribute paths, record fields (`r["f"]`,
                `obj.f`), `isinstance(x, list)` decided by the static type of `x`, float constants and + - * on
-               floats (as `Rat`), sum(list), None (where `T | None` is returned)
+               floats (as `Rat`), sum(list), None (where `T | None` is returned), int(e), a / k (k a non-zero number
+               in the source), `D.keys()`, `obj.m(args)` on configured methods
                with `raises=True` also: a % b (b not a literal), a / b on floats, xs[i]
   conditions   (`if` / conditional-expression tests, operand of `not`): truthiness BY STATIC TYPE, `and` / `or` / `not`
                of conditions, narrowing of `Option` paths
@@ -108,6 +109,22 @@ Emitters.  `k in D` / `k not in D` on a configured dict; `sep.join(xs)` on a lis
 of a configured record class whose method `m` is itself a translated function (`methods=`: the object's fields are the
 callee's arguments; `depends=` makes this function untranslatable when the callee is).
 
+Rows and numbers.  `int(e)` is `e` for an int and truncation toward zero for a float (`Generated.Py.pyInt` on the
+exact rational).  `a / b` is true division for ints as well (the result is a float, an exact `Rat` here; the float caveat
+applies: CPython rounds the quotient of two ints correctly, which is exact for the magnitudes of twips and points); a
+divisor that is a non-zero number IN THE SOURCE (an int / float literal, or an int constant of a configured class —
+`consts=`: path → (module, class, attribute), read off the imported class when the file is generated and emitted as a
+literal, so a change of the constant changes the generated definition) cannot raise and is not bound to a temporary.
+A list display `[e, …]` has the type of its elements (all of one type), evaluated left to right.
+`xs.extend(E for v in it [if c])` and `xs.extend([E for v in it [if c]])` are the loop `for v in it: xs.append(E)`
+(`extend` consumes the items one by one; the list is a local, so a partly extended list is never observed when an item
+raises).  `D.keys()` on a configured dict is a parameter (`dict_keys=`: the keys in insertion order, `List κ`).
+`obj.m(a, k=b)`: a method call with explicit arguments — `methods=` gives the names and types of the method's
+parameters after `self`; positional arguments fill them in order, keyword arguments by name, every parameter must be
+given exactly once (defaults are not known to the translator), the receiver is evaluated first, then the arguments as
+written; the receiver enters the callee as its fields (a translated callee) or whole (`fields` None: a helper that is a
+parameter of the translation).  `records_import=` makes a record type an abbreviation of the callee's record type.
+
 `isinstance(x, list)` is decided statically: `x : List _` is a Python `list` → True; an int, bool, str, `None`, or a
 record object is not → False.  An `if` (or `if not`) on such a test is translated as its live branch only — the other
 branch is dead for every input of the declared type and need not be typeable.  A union-typed input (`rtf_column_header`:
@@ -165,6 +182,23 @@ def _additional_rows(name: str, header_type: str, what: str) -> dict:
         alias={}, outputs={}, returns={}, ret_type="Int",
     )
 
+
+# the pydantic classes of `row.py` as records (declared field types are checked against the imported classes)
+_BORDER_FIELDS = [("style", "Str"), ("width", "Int"), ("color", "Option Str")]
+_BORDER_CLASS = ("rtflite.row", "Border", {"style": "<class 'str'>", "width": "<class 'int'>", "color": "str | None"})
+_CELL_CLASS = ("rtflite.row", "Cell", {"text": "<class 'rtflite.row.TextContent'>", "width": "<class 'float'>",
+                                       "vertical_justification": "str | None",
+                                       "border_top": "rtflite.row.Border | None",
+                                       "border_right": "rtflite.row.Border | None",
+                                       "border_bottom": "rtflite.row.Border | None",
+                                       "border_left": "rtflite.row.Border | None"})
+_TEXT_FIELDS = [("text", "Str"), ("font", "Int"), ("size", "Rat"), ("format", "Option Str"), ("color", "Option Str"),
+                ("background_color", "Option Str"), ("justification", "Str"), ("indent_first", "Int"),
+                ("indent_left", "Int"), ("indent_right", "Int"), ("space", "Int"), ("space_before", "Int"),
+                ("space_after", "Int"), ("convert", "Bool"), ("hyphenation", "Bool")]
+_PY_ANN = {"Str": "<class 'str'>", "Int": "<class 'int'>", "Rat": "<class 'float'>", "Bool": "<class 'bool'>",
+           "Option Str": "str | None"}
+_TEXT_CLASS = ("rtflite.row", "TextContent", {f: _PY_ANN[t] for f, t in _TEXT_FIELDS})
 
 TARGETS = [
     dict(
@@ -348,6 +382,46 @@ TARGETS = [
         imports=["Generated.PyBorderAsRtf"], depends=["BorderAsRtf"],
         alias={}, outputs={}, returns={}, ret_type="Str",
     ),
+    dict(
+        name="RowAsRtf", file="row.py", cls="Row", func="_as_rtf", raises=True,
+        doc="Row._as_rtf: the list of strings of one table row (the caller joins them with newlines) — the row header\n"
+            "`\\trowd\\trgaphN\\trleft0` + the justification code (`ValueError` for an unknown justification), one\n"
+            "string per cell definition (`Cell._as_rtf`, the translated `Generated.Py.CellAsRtf.run`), one string per\n"
+            "cell content (`cell.text._as_rtf(method=\"cell\")`, the parameter `text_as_rtf`), `\\intbl\\row\\pard`.\n"
+            "Parameters for the surroundings: those of `Cell._as_rtf`; `row_justification_codes` /\n"
+            "`row_justification_keys` (the dict `ROW_JUSTIFICATION_CODES` as a lookup, and its keys in order — only the\n"
+            "message of the `ValueError` reads them); `text_as_rtf` (`TextContent._as_rtf` with its `method` argument).\n"
+            "`N = int(Utils._inch_to_twip(self.height) / 2)`: true division of an int (an EXACT rational here, the float\n"
+            "caveat of DESIGN §6), then truncation toward zero (`Generated.Py.pyInt`).",
+        records={"Border": _BORDER_FIELDS, "Text": _TEXT_FIELDS,
+                 "Cell": [("text", "Text"), ("width", "Rat"), ("vertical_justification", "Option Str"),
+                          ("border_top", "Option Border"), ("border_right", "Option Border"),
+                          ("border_bottom", "Option Border"), ("border_left", "Option Border")]},
+        records_import={"Border": "Generated.Py.CellAsRtf.Border"},
+        classes=[_BORDER_CLASS, _CELL_CLASS, _TEXT_CLASS,
+                 ("rtflite.row", "Row", {"row_cells": "collections.abc.Sequence[rtflite.row.Cell]",
+                                         "justification": "<class 'str'>", "height": "<class 'float'>"})],
+        fn_params=[("border_codes", "List Nat → Option (List Nat)"),
+                   ("get_color_index", "List Nat → Except Exc Int"),
+                   ("vertical_alignment_codes", "List Nat → Option (List Nat)"),
+                   ("inch_to_twip", "Rat → Int"),
+                   ("row_justification_codes", "List Nat → Option (List Nat)"),
+                   ("row_justification_keys", "List (List Nat)"),
+                   ("text_as_rtf", "Text → List Nat → Except Exc (List Nat)")],
+        params=[("row_cells", "List Cell"), ("justification", "Str"), ("height", "Rat")], skip_params=["self"],
+        env={"self.row_cells": ("row_cells", "List Cell"), "self.justification": ("justification", "Str"),
+             "self.height": ("height", "Rat")},
+        dicts={"ROW_JUSTIFICATION_CODES": ("row_justification_codes", "Str", "Str")},
+        dict_keys={"ROW_JUSTIFICATION_CODES": "row_justification_keys"},
+        calls={"Utils._inch_to_twip": ("inch_to_twip", ["Rat"], "Int")},
+        methods={("Cell", "_as_rtf"): ("Generated.Py.CellAsRtf.run border_codes get_color_index "
+                                       "vertical_alignment_codes inch_to_twip",
+                                       ["border_left", "border_top", "border_right", "border_bottom",
+                                        "vertical_justification", "width"], "Str", True),
+                 ("Text", "_as_rtf"): ("text_as_rtf", None, "Str", True, [("method", "Str")])},
+        imports=["Generated.PyCellAsRtf"], depends=["CellAsRtf"],
+        alias={}, outputs={}, returns={}, ret_type="List Str",
+    ),
     _additional_rows("AdditionalRowsFlat", "List (Option Comp)", "a flat list `[header | None, …]`"),
     _additional_rows("AdditionalRowsNested", "List (List (Option Comp))",
                      "a nested list `[[header | None, …], …]` (one Python list per section)"),
@@ -401,6 +475,9 @@ class Fn:
             return self.narrow[src]
         if src in self.cfg["env"]:
             return self.cfg["env"][src]
+        if src in (self.cfg.get("consts") or {}):
+            # an int constant of a configured class, read off the imported class when the file is generated
+            return f"({self.const_value(src)} : Int)", "Int"
         if isinstance(e, ast.Constant):
             if isinstance(e.value, bool):
                 return ("true" if e.value else "false"), "Bool"
@@ -433,8 +510,14 @@ class Fn:
                 raise Untranslatable(f"operator % on {ta}, {tb} in {src}")
             if isinstance(e.op, ast.Div):
                 b, tb = self.expr(e.right, defined)
-                if {ta, tb} <= {"Rat", "Int"} and "Rat" in (ta, tb):     # float division: ZeroDivisionError for 0
-                    return self.tmp(f"Generated.Py.pyDiv {self.rat(a, ta)} {self.rat(b, tb)}", src), "Rat"
+                if {ta, tb} <= {"Rat", "Int"}:
+                    # true division (of floats, of ints: the result is a float in both cases — an exact `Rat` here):
+                    # ZeroDivisionError for 0; a divisor that is a non-zero number in the source (a literal, or a
+                    # configured class constant read at generation time) cannot raise and needs no temporary
+                    if self.literal_number(e.right) not in (None, 0):
+                        return f"({self.rat(a, ta)} / {self.rat(b, tb)})", "Rat"
+                    if "Rat" in (ta, tb):
+                        return self.tmp(f"Generated.Py.pyDiv {self.rat(a, ta)} {self.rat(b, tb)}", src), "Rat"
                 raise Untranslatable(f"operator / on {ta}, {tb} in {src}")
             if isinstance(e.op, (ast.RShift, ast.BitAnd, ast.FloorDiv, ast.Mod)):
                 if not (isinstance(e.right, ast.Constant) and isinstance(e.right.value, int) and ta == "Int"):
@@ -520,10 +603,11 @@ class Fn:
                 raise Untranslatable(f"conditional expression {src}")
             return f"(if {c} then {a} else {b})", ta
         if isinstance(e, ast.List):
-            parts = [self.expr(v, defined) for v in e.elts]
-            if not parts or any(t != "Int" for _, t in parts):
+            parts = [self.expr(v, defined) for v in e.elts]        # evaluated left to right
+            if not parts or any(t != parts[0][1] for _, t in parts) or \
+                    not (parts[0][1] in ("Int", "Str", "Rat", "Bool") or parts[0][1] in self.cfg["records"]):
                 raise Untranslatable(f"list display {src}")
-            return "[" + ", ".join(p for p, _ in parts) + "]", "List Int"
+            return "[" + ", ".join(p for p, _ in parts) + "]", t_app("List", parts[0][1])
         if isinstance(e, ast.JoinedStr):
             out = []
             for v in e.values:
@@ -623,9 +707,24 @@ class Fn:
                 if tsep == "Str" and txs == "List Str":          # sep.join(xs)
                     return f"(Generated.Py.pyJoin {sep} {xs})", "Str"
                 raise Untranslatable(f"{src} on {tsep}, {txs}")
-            if isinstance(f, ast.Attribute) and not e.args and not e.keywords and (self.cfg.get("methods") or {}):
-                # obj.m() on an object of a configured record class whose method m is itself translated: the
-                # object's fields are the callee's arguments
+            if isinstance(f, ast.Name) and f.id == "int" and len(e.args) == 1 and not e.keywords:
+                a, ta = self.expr(e.args[0], defined)
+                if ta == "Int":                      # int(i) of an int is i
+                    return a, "Int"
+                if ta == "Rat":                      # int(x) of a float: truncation toward zero
+                    return f"(Generated.Py.pyInt {a})", "Int"
+                raise Untranslatable(f"int() of a value of type {ta} in {src}")
+            if isinstance(f, ast.Attribute) and f.attr == "keys" and not e.args and not e.keywords and \
+                    ast.unparse(f.value) in (self.cfg.get("dict_keys") or {}):
+                # D.keys() on a configured dict: its keys in insertion order (a parameter of the translation)
+                kt = self.cfg["dicts"][ast.unparse(f.value)][1]
+                return self.cfg["dict_keys"][ast.unparse(f.value)], t_app("List", kt)
+            if isinstance(f, ast.Attribute) and (self.cfg.get("methods") or {}):
+                # obj.m(args) on an object of a configured record class whose method m is itself translated (the
+                # object's fields are the callee's first arguments) or stands as a parameter (`fields` None: the object
+                # itself is the first argument).  Explicit arguments are matched to the declared parameter names of the
+                # method (positional first, then keywords; all of them must be given) and are evaluated in the order
+                # in which they are written, after the receiver
                 n = len(self.pending)
                 try:
                     recv, trecv = self.expr(f.value, defined)
@@ -634,8 +733,21 @@ class Fn:
                     recv, trecv = None, None
                 spec = self.cfg["methods"].get((trecv, f.attr))
                 if spec is not None:
-                    lean_fn, fields, rty, may_raise = spec
-                    call = f"{lean_fn} " + " ".join(f"{recv}.{fl}" for fl in fields)
+                    lean_fn, fields, rty, may_raise = spec[:4]
+                    formal = list(spec[4]) if len(spec) > 4 else []
+                    if len(e.args) > len(formal) or any(k.arg is None for k in e.keywords):
+                        raise Untranslatable(f"call {src}: arguments changed")
+                    given = {}
+                    for (pn, pt), a_ast in list(zip(formal, e.args)) + \
+                            [((k.arg, dict(formal).get(k.arg)), k.value) for k in e.keywords]:
+                        a, ta = self.expr(a_ast, defined)
+                        if pn in given or pt is None or ta != pt:
+                            raise Untranslatable(f"call {src}: argument {pn} of type {ta}")
+                        given[pn] = a
+                    if set(given) != {pn for pn, _ in formal}:
+                        raise Untranslatable(f"call {src}: arguments changed")
+                    call = f"{lean_fn} " + " ".join(([recv] if fields is None else [f"{recv}.{fl}" for fl in fields]) +
+                                                   [given[pn] for pn, _ in formal])
                     return (self.tmp(call, src) if may_raise else f"({call})"), rty
             if isinstance(f, ast.Attribute) and f.attr == "index" and len(e.args) == 1 and not e.keywords:
                 xs, txs = self.expr(f.value, defined)
@@ -684,6 +796,32 @@ class Fn:
                 return f"{a}.{e.attr}", fields[e.attr]
             raise Untranslatable(f"attribute {e.attr} of a value of type {ta} in {src}")
         raise Untranslatable(f"expression {src}")
+
+    def const_value(self, src: str) -> int:
+        """the value of a configured class constant (`consts=`: source path → (module, class, attribute)), read off
+        the imported class; it must be an int (not a bool)"""
+        import importlib
+
+        mod, cls, attr = self.cfg["consts"][src]
+        try:
+            v = getattr(getattr(importlib.import_module(mod), cls), attr)
+        except Exception as e:  # noqa: BLE001
+            raise Untranslatable(f"constant {src}: {type(e).__name__}: {e}") from e
+        if type(v) is not int:
+            raise Untranslatable(f"constant {src} is {v!r}, not an int")
+        return v
+
+    def literal_number(self, e):
+        """the number an expression denotes in the source: an int / float literal (a minus sign in front of it
+        included) or a configured class constant; None for anything else"""
+        if isinstance(e, ast.Constant) and type(e.value) in (int, float):
+            return e.value
+        if isinstance(e, ast.UnaryOp) and isinstance(e.op, ast.USub):
+            v = self.literal_number(e.operand)
+            return None if v is None else -v
+        if ast.unparse(e) in (self.cfg.get("consts") or {}):
+            return self.const_value(ast.unparse(e))
+        return None
 
     # ---- operations that may raise
     def tmp(self, monadic: str, src: str) -> str:
@@ -954,6 +1092,24 @@ class Fn:
             if isinstance(st, ast.Return):
                 new.append(ast.Return(value=ast.Name(id=name, ctx=ast.Load())))
             return self.block([ast.fix_missing_locations(x) for x in new] + rest, defined, in_loop, ind)
+        # ---- `xs.extend(E for v in it [if c])` on a local list (a generator expression or a list comprehension as the
+        # only argument): the loop `for v in it: [if c:] xs.append(E)` — `extend` takes the items one by one; when one
+        # of them raises, the exception leaves the function and the partly extended local list is not observable
+        if isinstance(st, ast.Expr) and isinstance(st.value, ast.Call) and isinstance(st.value.func, ast.Attribute) \
+                and st.value.func.attr == "extend" and isinstance(st.value.func.value, ast.Name) \
+                and len(st.value.args) == 1 and not st.value.keywords \
+                and isinstance(st.value.args[0], (ast.GeneratorExp, ast.ListComp)):
+            gen = st.value.args[0]
+            g = gen.generators[0]
+            if len(gen.generators) != 1 or g.is_async or isinstance(gen.elt, ast.NamedExpr):
+                raise Untranslatable(f"generator {ast.unparse(gen)}")
+            app = ast.Expr(ast.Call(func=ast.Attribute(value=st.value.func.value, attr="append", ctx=ast.Load()),
+                                    args=[gen.elt], keywords=[]))
+            inner = [app]
+            for cnd in reversed(g.ifs):
+                inner = [ast.If(test=cnd, body=inner, orelse=[])]
+            loop = ast.For(target=g.target, iter=g.iter, body=inner, orelse=[], lineno=st.lineno)
+            return self.block([ast.fix_missing_locations(loop)] + rest, defined, in_loop, ind)
         # ---- `xs.append(e)` on a local list
         if isinstance(st, ast.Expr) and isinstance(st.value, ast.Call) and isinstance(st.value.func, ast.Attribute) \
                 and st.value.func.attr == "append" and isinstance(st.value.func.value, ast.Name) \
@@ -1241,8 +1397,8 @@ def stored_names(stmts) -> set:
         for n in ast.walk(st):
             if isinstance(n, ast.Name) and isinstance(n.ctx, ast.Store):
                 out.add(n.id)
-            if isinstance(n, ast.Call) and isinstance(n.func, ast.Attribute) and n.func.attr == "append" and \
-                    isinstance(n.func.value, ast.Name):
+            if isinstance(n, ast.Call) and isinstance(n.func, ast.Attribute) and n.func.attr in ("append", "extend") \
+                    and isinstance(n.func.value, ast.Name):
                 out.add(n.func.value.id)
     return out
 
@@ -1415,6 +1571,9 @@ def translate(cfg) -> str:
              "set_option linter.unusedVariables false",
              f"namespace Generated.Py.{cfg['name']}", ""]
     for rn, fields in cfg["records"].items():
+        if rn in (cfg.get("records_import") or {}):      # the record type of a translated callee, shared with it
+            lines += [f"abbrev {rn} := {cfg['records_import'][rn]}", ""]
+            continue
         lines.append(f"structure {rn} where")
         lines += [f"  {f} : {lean_type(t)}" for f, t in fields]
         lines += ["  deriving Repr, Inhabited, DecidableEq", ""]
@@ -1469,6 +1628,9 @@ def pyMod (a b : Int) : Except Exc Int :=
 /-- `a / b` on floats, as exact rationals (the float caveat of DESIGN §6): `ZeroDivisionError` for `b = 0` -/
 def pyDiv (a b : Rat) : Except Exc Rat :=
   if b = 0 then .error .ZeroDivisionError else .ok (a / b)
+
+/-- `int(x)` of a float (an exact rational here): truncation toward zero -/
+def pyInt (x : Rat) : Int := if 0 ≤ x then x.floor else -((-x).floor)
 
 /-- `xs[i]` on a list: `-len ≤ i < 0` counts from the end, outside `-len ≤ i < len` raises `IndexError` -/
 def pyIndex {α : Type} (xs : List α) (i : Int) : Except Exc α :=
